@@ -96,6 +96,12 @@ def run_configs(rep, pid, c, configs, default_budget=100):
         kw.setdefault('time_budget', default_budget)
         ex = run_explorer(rep, c, sc, name, **kw)
         report(rep, pid, name, ex, sc)
+        for mon in monitors:
+            if hasattr(mon, 'missing') and not ex.violations:
+                miss = mon.missing()
+                rep.parts[name]['covered'] = sorted(mon.seen)
+                if miss:
+                    rep.inconclusive.append('%s: vacuity guard: never reached %s' % (name, miss))
         if rep.violations:
             break
 
